@@ -408,7 +408,7 @@ fn sweep(case: &TreeCase, m: &Model, t: &dyn DynDs, which: usize, deep: bool, ou
     for &i in &positions {
         sw.check(t, "get", Q::Get(i), A::U(Sym(m.seq[i])), Some(m.seq[i]), Some(i));
     }
-    for i in [n, n.wrapping_add(1), usize::MAX] {
+    for i in [n, n.wrapping_add(1), usize::MAX, 1usize << 63, (1usize << 63) + n / 2, usize::MAX / 2 + 1 + n.saturating_sub(1)] {
         sw.check(t, "get", Q::Get(i), A::None, None, Some(i));
     }
 
@@ -477,7 +477,7 @@ fn sweep(case: &TreeCase, m: &Model, t: &dyn DynDs, which: usize, deep: bool, ou
     ranks.retain(|&i| i <= n);
     ranks.sort();
     ranks.dedup();
-    let past = [n.wrapping_add(1), usize::MAX];
+    let past = [n.wrapping_add(1), usize::MAX, (1usize << 63) + n / 2];
     let has_pf = alias.is_quad();
 
     for &c in syms.iter().chain(absent.iter()) {
